@@ -157,6 +157,15 @@ class Main(S.DispatchStream):
                 add(json.dumps(GN.req(d, [], 6)), ver, dk, jc)
                 add(json.dumps([GN.req("ok", [], d), GN.req("ok", [], 8)]), ver, dk, jc)
                 add(json.dumps(GN.req("ok", {"k": [d]}, None)), ver, dk, jc)
+        # escaped lone surrogates (valid JSON text, pure ASCII) in every echoed position: the reply must still be a text
+        # that can be put on the wire
+        for sur in ("\\ud800", "\\udc00x", "a\\ud83d"):
+            for ver in (1.0, 2.0):
+                add('{"jsonrpc": "2.0", "method": "echo", "params": ["%s"], "id": 1}' % sur, ver, "default")
+                add('{"jsonrpc": "2.0", "method": "echo", "params": {"%s": 1}, "id": 2}' % sur, ver, "default")
+                add('{"jsonrpc": "2.0", "method": "ok", "id": "%s"}' % sur, ver, "default")
+                add('{"jsonrpc": "2.0", "method": "%s", "id": 3}' % sur, ver, "default")
+                add('[{"method": "echo", "params": ["%s"], "id": "%s"}]' % (sur, sur), ver, "custom-returns")
         # results: conversion failure, tuple-free nested results
         for ver, dk in itertools.product([1.0, 2.0], DK):
             add(json.dumps(GN.req("opq", [], 1)), ver, dk, True)
@@ -174,6 +183,10 @@ class Main(S.DispatchStream):
             return ("C02:dispatcher-raised", "_marshaled_dispatch raised %s: %s" % (type(obs["raised"]).__name__, str(obs["raised"])[:200]))
         if not isinstance(obs["text"], str):
             return ("C02:reply-not-text", "reply is %r" % (type(obs["text"]),))
+        try:
+            obs["text"].encode("utf-8")
+        except UnicodeEncodeError as ex:
+            return ("C02:reply-not-encodable", "the reply text cannot be written as UTF-8 (%s): %r" % (ex.reason, obs["text"][:120]))
         pr = K.parse_reply(obs["text"])
         if pr[0] == "empty":
             return None
